@@ -27,7 +27,12 @@ SPECS = {
     '__expr_clone': ('impl Clone for Expr {\n    #[verifier::external_body]\n'
                      '    fn clone(&self) -> (r: Expr) ensures r == *self { unimplemented!() }\n}\n'
                      'impl Clone for Lexem {\n    #[verifier::external_body]\n'
-                     '    fn clone(&self) -> (r: Lexem) ensures r == *self { unimplemented!() }\n}\n'),
+                     '    fn clone(&self) -> (r: Lexem) ensures r == *self { unimplemented!() }\n}\n'
+                     '// derived PartialEq of Lexem: structural equality (trusted, T6)\n'
+                     'impl PartialEq for Lexem {\n    #[verifier::external_body]\n'
+                     '    fn eq(&self, other: &Lexem) -> (r: bool) ensures r == (*self == *other) { unimplemented!() }\n'
+                     '    #[verifier::external_body]\n'
+                     '    fn ne(&self, other: &Lexem) -> (r: bool) ensures r == (*self != *other) { unimplemented!() }\n}\n'),
 
     # constructors: proved to build exactly the node their name says (strongest postcondition)
     'Expr::value': dict(ret='r', ensures=['r == (Expr { left: None, arithmetic_op: None, logical_op: None, op: None, right: None, minus: false, field: None, function: None, args: None, val: Some(value) })']),
@@ -77,7 +82,11 @@ SPECS = {
         '&& e.left is None && e.right is None && e.op is None && e.logical_op is None && e.arithmetic_op is None && !e.minus '
         '&& final(self).index == old(self).index + 1)',
     ]),
-    'parse_function': dict(ret='r', attrs=[NODEC], ensures=FRAME, loops={0: dict(invariant=LOOPINV)}, guard_to_if=True),
+    'parse_function': dict(ret='r', attrs=[NODEC], loops={0: dict(invariant=LOOPINV + ['!(lexem_at(*old(self), 0) is Some && !(lexem_at(*old(self), 0)->Some_0 is Open) && !(lexem_at(*old(self), 0)->Some_0 is CurlyOpen))'])}, guard_to_if=True, ensures=FRAME + [
+        # C11: `()` after an argument-less function changes nothing - without brackets the next token is left in place
+        '/*C11.noparens*/ (spec_argless(function) && lexem_at(*old(self), 0) is Some && !(lexem_at(*old(self), 0)->Some_0 is Open) && '
+        '!(lexem_at(*old(self), 0)->Some_0 is CurlyOpen)) ==> (r is Ok && final(self).index == old(self).index)',
+    ]),
     'parse_group_by': dict(ret='r', attrs=[NODEC], ensures=FRAME, loops={0: dict(invariant=LOOPINV)}),
     'parse_order_by': dict(ret='r', attrs=[NODEC], ensures=FRAME + ['/*C05.orderby.parse*/ r matches Ok(p) ==> p.0.len() == p.1.len()'],
                            loops={0: dict(invariant=LOOPINV + ['order_by_fields.len() == order_by_directions.len()'])}),
@@ -126,6 +135,8 @@ for _f, _sp in SPECS.items():
 SPECS['negate_expr_op']['decreases'] = 'expr'
 
 EXTRA = '''
+pub uninterp spec fn spec_argless(f: Function) -> bool;
+
 spec fn rem(p: Parser) -> int { if p.index <= p.lexems.len() { p.lexems.len() + 1 - p.index } else { 0 } }
 
 pub open spec fn spec_arith_node(l: Expr, op: ArithmeticOp, r: Expr) -> Expr {
